@@ -1,3 +1,4 @@
+(* Master/MTaskProofs.v — theorems about the master task model (C15, C16): what a step can do, along every run. *)
 From Dnp3V Require Import Base.Bytes Master.MParse Master.Command Master.CommandProofs Master.MTask.
 Import MP MCmd MT.
 
@@ -2708,18 +2709,603 @@ Definition J (cfg : mcfg) (st : mstate) : Prop :=
 
 (* channel part of the state *)
 Definition cf (st st' : mstate) : Prop :=
-  s_now st' = s_now st /\ s_conn st' = s_conn st /\ s_assoc st' = s_assoc st /\ s_stopped st' = s_stopped st /\
-  s_enabled st' = s_enabled st /\ s_linkup st' = s_linkup st.
+  s_now st' = s_now st /\ s_conn st' = s_conn st /\ s_assoc st' = s_assoc st.
 Lemma cf_refl st : cf st st. Proof. repeat split. Qed.
 Lemma cf_trans a b c : cf a b -> cf b c -> cf a c.
 Proof. unfold cf. intuition congruence. Qed.
 Lemma frame_cf a b : frame a b -> cf a b.
 Proof. unfold frame, cf. intuition. Qed.
 
+Lemma send_nonread_cf cfg st k objs sd st' o :
+  send_nonread cfg st k objs sd = (st', o) -> cf st st' /\ s_queue st' = s_queue st.
+Proof.
+  unfold send_nonread. destruct (fits cfg objs); intros H; [injection H as <- _; repeat split|].
+  destruct (nr_error _ _ _ _) as [st2 o2] eqn:E. injection H as <- _. apply nr_error_frame in E.
+  destruct E as (F1 & F2 & F3 & F4 & F5 & F6 & F7 & F8). repeat split; assumption.
+Qed.
 
-Section T2.
-Variable cfg0 : mcfg.
-Hypothesis Ht0 : 1 <= c_timeout cfg0.
-Lemma x2 st : s_now st < s_now st + c_timeout cfg0.
-Proof. lia. Qed.
-End T2.
+Lemma send_nonread_run cfg st k objs sd st' o :
+  send_nonread cfg st k objs sd = (st', o) ->
+  s_run st' = RNone \/ s_run st' = RNonRead k (s_seq st) (s_now st + c_timeout cfg) sd.
+Proof.
+  unfold send_nonread. destruct (fits cfg objs); intros H; [injection H as <- _; right; reflexivity|].
+  destruct (nr_error _ _ _ _) as [st2 o2]. injection H as <- _. left. reflexivity.
+Qed.
+
+Lemma start_read_cf cfg st k objs st' o :
+  start_read cfg st k objs = (st', o) -> cf st st' /\ s_queue st' = s_queue st /\
+  (s_run st' = RNone \/ s_run st' = RRead k (s_seq st) true (s_now st + c_timeout cfg) (s_now st)).
+Proof.
+  unfold start_read. destruct (fits cfg objs); intros H; [injection H as <- _; repeat split; right; reflexivity|].
+  destruct (rd_error _ _ _ _) as [st2 o2] eqn:E. injection H as <- _. apply rd_error_frame in E.
+  destruct E as (F1 & F2 & F3 & F4 & F5 & F6 & F7 & F8). repeat split; try assumption. left. reflexivity.
+Qed.
+
+Section Timing.
+Variable cfg : mcfg.
+Hypothesis Htimeout : 1 <= c_timeout cfg.
+
+Lemma J_of_parts st : run_ok cfg st -> (s_conn st = false -> s_queue st = []) -> (s_assoc st = false -> s_queue st = []) -> J cfg st.
+Proof. intros. repeat split; assumption. Qed.
+
+Lemma send_nonread_J st k objs sd st' o :
+  J cfg st -> s_conn st = true -> sd <= s_now st -> s_now st + c_timeout cfg <= sd + nr_steps k * c_timeout cfg ->
+  send_nonread cfg st k objs sd = (st', o) -> J cfg st'.
+Proof.
+  intros (_ & Hq1 & Hq2) Hc Hsd Hb H. destruct (send_nonread_cf _ _ _ _ _ _ _ H) as ((Fn & Fc & Fa) & Fq).
+  apply J_of_parts; [|rewrite Fc, Fq; exact Hq1|rewrite Fa, Fq; exact Hq2].
+  unfold run_ok. destruct (send_nonread_run _ _ _ _ _ _ _ H) as [->| ->]; [exact I|].
+  rewrite Fc, Fn. repeat split; try assumption. lia.
+Qed.
+
+Lemma start_nonread_J st k objs st' o :
+  J cfg st -> s_conn st = true -> nr_steps k = 1 -> start_nonread cfg st k objs = (st', o) -> J cfg st'.
+Proof.
+  unfold start_nonread. intros HJ Hc Hk. destruct (send_nonread _ _ _ _ _) as [st1 o1] eqn:E. intros H. injection H as <- _.
+  eapply (send_nonread_J st k objs (s_now st)); [exact HJ|exact Hc|lia| |exact E]. rewrite Hk. lia.
+Qed.
+
+Lemma start_read_J st k objs st' o : J cfg st -> s_conn st = true -> start_read cfg st k objs = (st', o) -> J cfg st'.
+Proof.
+  intros (_ & Hq1 & Hq2) Hc H. destruct (start_read_cf _ _ _ _ _ _ H) as ((Fn & Fc & Fa) & Fq & Hr).
+  apply J_of_parts; [|rewrite Fc, Fq; exact Hq1|rewrite Fa, Fq; exact Hq2].
+  unfold run_ok. destruct Hr as [->| ->]; [exact I|]. rewrite Fc, Fn. repeat split; try assumption; lia.
+Qed.
+
+Lemma start_user_J st t u st' o : J cfg st -> s_conn st = true -> start_user cfg st t u = (st', o) -> J cfg st'.
+Proof.
+  unfold start_user. intros HJ Hc. destruct u as [objs|sbo hs|hs|fc objs|cold|]; intros H.
+  - eapply start_read_J; eauto.
+  - eapply start_nonread_J; [exact HJ|exact Hc| |exact H]. destruct sbo; reflexivity.
+  - eapply start_nonread_J; [exact HJ|exact Hc| |exact H]. reflexivity.
+  - eapply start_nonread_J; [exact HJ|exact Hc| |exact H]. reflexivity.
+  - eapply start_nonread_J; [exact HJ|exact Hc| |exact H]. reflexivity.
+  - injection H as <- _. destruct HJ as (_ & Hq1 & Hq2). apply J_of_parts; [|exact Hq1|exact Hq2].
+    unfold run_ok. cbn [s_run set_run s_conn s_now]. repeat split; try assumption; lia.
+Qed.
+
+Lemma next_task_assoc st t u : next_task cfg st = NxUser t u -> s_assoc st = true.
+Proof. unfold next_task. destruct (s_assoc st); [reflexivity|discriminate]. Qed.
+
+Lemma pump_J fuel : forall st st' o, J cfg st -> pump fuel cfg st = (st', o) -> J cfg st'.
+Proof.
+  induction fuel as [|f IH]; intros st st' o HJ H; cbn [pump] in H; [injection H as <- _; exact HJ|].
+  destruct (s_conn st) eqn:Hc; cbn [negb] in H; [|injection H as <- _; exact HJ].
+  destruct (s_run st) eqn:Hr; try (injection H as <- _; exact HJ).
+  destruct (next_task cfg st) as [|t|t u|a|] eqn:Hn; try (injection H as <- _; exact HJ).
+  - destruct (start_user _ _ _ _) as [st1 o1] eqn:E1. destruct (pump f cfg st1) as [st2 o2] eqn:E2.
+    injection H as <- _. eapply IH; [|exact E2].
+    eapply (start_user_J (set_queue st (tl (s_queue st)))); [|exact Hc|exact E1].
+    destruct HJ as (Hok & Hq1 & Hq2). apply J_of_parts.
+    + unfold run_ok in *. cbn [s_run set_queue]. rewrite Hr. exact I.
+    + cbn [s_conn set_queue]. rewrite Hc. discriminate.
+    + cbn [s_assoc set_queue]. rewrite (next_task_assoc _ _ _ Hn). discriminate.
+  - destruct (start_nonread _ _ _ _) as [st1 o1] eqn:E1. destruct (pump f cfg st1) as [st2 o2] eqn:E2.
+    injection H as <- _. eapply IH; [|exact E2].
+    eapply (start_nonread_J st (NRAuto a)); [exact HJ|exact Hc|reflexivity|exact E1].
+  - destruct (start_read _ _ _ _) as [st1 o1] eqn:E1. destruct (pump f cfg st1) as [st2 o2] eqn:E2.
+    injection H as <- _. eapply IH; [|exact E2]. eapply start_read_J; [exact HJ|exact Hc|exact E1].
+Qed.
+
+Lemma fail_running_J st e st' o : J cfg st -> fail_running cfg st e = (st', o) -> J cfg st'.
+Proof.
+  intros (_ & Hq1 & Hq2) H. destruct (fail_running_idle _ _ _ _ _ H) as [Hr _].
+  destruct (fail_running_frame _ _ _ _ _ H) as (_ & Fc & _ & _ & _ & Fa & Fq & _).
+  apply J_of_parts; [unfold run_ok; rewrite Hr; exact I|rewrite Fc, Fq; exact Hq1|rewrite Fa, Fq; exact Hq2].
+Qed.
+
+Lemma then_pump_J st1 o1 st' o : J cfg st1 -> then_pump cfg (st1, o1) = (st', o) -> J cfg st'.
+Proof.
+  unfold then_pump, run_pump. destruct (pump _ cfg st1) as [st2 o2] eqn:E. intros HJ H. injection H as <- _.
+  eapply pump_J; eauto.
+Qed.
+
+
+Lemma process_iin_cf st i : cf st (process_iin st i) /\ s_queue (process_iin st i) = s_queue st /\ s_run (process_iin st i) = s_run st.
+Proof. unfold process_iin. destruct (iin1_restart i); [destruct (s_clear st)|]; repeat split. Qed.
+
+Lemma J_transfer st st' :
+  cf st st' -> s_queue st' = s_queue st -> s_run st' = s_run st -> J cfg st -> J cfg st'.
+Proof.
+  intros (Fn & Fc & Fa) Fq Fr (Hok & Hq1 & Hq2).
+  apply J_of_parts; [|rewrite Fc, Fq; exact Hq1|rewrite Fa, Fq; exact Hq2].
+  unfold run_ok in *. rewrite Fr, Fc, Fn. exact Hok.
+Qed.
+
+Lemma handle_unsol_J st src h objs v items st' o :
+  J cfg st -> handle_unsol cfg st src h objs v items = (st', o) -> J cfg st'.
+Proof.
+  intros HJ. unfold handle_unsol. destruct (process_iin_cf st (h_iin1 h)) as (F1 & F2 & F3).
+  assert (HJ1 : J cfg (process_iin st (h_iin1 h))) by (eapply J_transfer; eauto).
+  destruct (_ && s_assoc st); [|intros H; injection H as <- _; exact HJ].
+  destruct (_ || _); [|intros H; injection H as <- _; exact HJ1].
+  destruct v; try (intros H; injection H as <- _; exact HJ1).
+  destruct (match s_last_unsol _ with Some _ => _ | None => _ end); intros H; injection H as <- _;
+    (eapply J_transfer; [| | |exact HJ1]; [repeat split; cbn; congruence|reflexivity|reflexivity]).
+Qed.
+
+Lemma J_idle st st' :
+  cf st st' -> s_queue st' = s_queue st -> s_run st' = RNone -> J cfg st -> J cfg st'.
+Proof.
+  intros (Fn & Fc & Fa) Fq Fr (_ & Hq1 & Hq2).
+  apply J_of_parts; [unfold run_ok; rewrite Fr; exact I|rewrite Fc, Fq; exact Hq1|rewrite Fa, Fq; exact Hq2].
+Qed.
+
+Lemma handle_nonread_response_J st k q dl sd h objs v st' o :
+  J cfg st -> s_run st = RNonRead k q dl sd -> handle_nonread_response cfg st k q sd h objs v = (st', o) -> J cfg st'.
+Proof.
+  intros HJ Hr. unfold handle_nonread_response, nr_success, nr_failed.
+  assert (Hidle : forall st1, cf st st1 -> s_queue st1 = s_queue st -> J cfg (set_run st1 RNone)).
+  { intros st1 Hcf Hq. eapply (J_idle st); [| | |exact HJ]; [exact Hcf|exact Hq|reflexivity]. }
+  destruct k as [t ph hs|t|t fc|t cold|a].
+  - destruct v; try (intros H; injection H as <- _; apply Hidle; [apply cf_refl|reflexivity]).
+    destruct (compare hs objs); [|intros H; injection H as <- _; apply Hidle; [apply cf_refl|reflexivity]].
+    destruct ph; try (intros H; injection H as <- _; apply Hidle; [apply cf_refl|reflexivity]).
+    intros H. destruct HJ as (Hok & Hq1 & Hq2). pose proof Hok as Hok'. unfold run_ok in Hok'. rewrite Hr in Hok'.
+    destruct Hok' as (Hc & Hsd & Hlt & Hdl). cbn [nr_steps] in Hdl.
+    eapply (send_nonread_J st (NRCommand t PhOperate hs)); [repeat split; assumption|exact Hc|exact Hsd| |exact H].
+    cbn [nr_steps]. lia.
+  - destruct objs; intros H; injection H as <- _; apply Hidle; try apply cf_refl; reflexivity.
+  - destruct objs; intros H; injection H as <- _; apply Hidle; try apply cf_refl; reflexivity.
+  - destruct v; try (intros H; injection H as <- _; apply Hidle; [apply cf_refl|reflexivity]).
+    destruct (restart_delay objs); intros H; injection H as <- _; apply Hidle; try apply cf_refl; reflexivity.
+  - intros H; injection H as <- _. apply Hidle; [apply frame_cf, auto_response_frame|apply auto_response_frame].
+Qed.
+
+Lemma on_nonread_rx_J st k q dl sd src h objs v items st' o :
+  J cfg st -> s_run st = RNonRead k q dl sd -> on_nonread_rx cfg st k q dl sd src h objs v items = (st', o) -> J cfg st'.
+Proof.
+  intros HJ Hr. unfold on_nonread_rx.
+  destruct (h_unsol h); [apply handle_unsol_J; exact HJ|].
+  destruct (negb (src =? c_addr cfg)); [intros H; injection H as <- _; exact HJ|].
+  destruct (negb (c_seq (h_ctrl h) =? q)); [intros H; injection H as <- _; exact HJ|].
+  destruct (negb (_ && _)); [apply fail_running_J; exact HJ|].
+  destruct (iin2_bad _); [apply fail_running_J; exact HJ|].
+  destruct (process_iin_cf st (h_iin1 h)) as (F1 & F2 & F3).
+  destruct (s_assoc st).
+  - destruct (handle_nonread_response _ _ _ _ _ _ _ _) as [st1 o1] eqn:E. intros H. injection H as <- _.
+    eapply handle_nonread_response_J; [|rewrite F3; exact Hr|exact E]. eapply J_transfer; eauto.
+  - destruct (nr_error _ _ _ _) as [st1 o1] eqn:E. intros H. injection H as <- _. apply nr_error_frame in E.
+    eapply (J_idle st); [| | |exact HJ]; [apply frame_cf in E; exact E
+                                          |apply E|reflexivity].
+Qed.
+
+Lemma on_read_rx_J st k q first dl sd src h objs v items st' o :
+  J cfg st -> s_run st = RRead k q first dl sd -> on_read_rx cfg st k q first dl sd src h objs v items = (st', o) -> J cfg st'.
+Proof.
+  intros HJ Hr. unfold on_read_rx.
+  destruct (h_unsol h); [apply handle_unsol_J; exact HJ|].
+  destruct (negb (src =? c_addr cfg)); [intros H; injection H as <- _; exact HJ|].
+  destruct (negb (c_seq (h_ctrl h) =? q)); [intros H; injection H as <- _; exact HJ|].
+  destruct (_ && negb first); [apply fail_running_J; exact HJ|].
+  destruct (negb _ && first); [apply fail_running_J; exact HJ|].
+  destruct (negb _ && negb _); [apply fail_running_J; exact HJ|].
+  destruct (iin2_bad _); [apply fail_running_J; exact HJ|].
+  destruct (negb (s_assoc st)); [apply fail_running_J; exact HJ|].
+  destruct (process_iin_cf st (h_iin1 h)) as (F1 & F2 & F3).
+  assert (HJ1 : J cfg (process_iin st (h_iin1 h))) by (eapply J_transfer; eauto).
+  destruct v; try (apply fail_running_J; exact HJ1).
+  destruct (c_fin _).
+  - destruct k as [t|]; intros H; injection H as <- _;
+      (eapply (J_idle (process_iin st (h_iin1 h))); [| | |exact HJ1]; [repeat split; cbn; congruence|reflexivity|reflexivity]).
+  - intros H; injection H as <- _. destruct HJ1 as (Hok & Hq1 & Hq2). apply J_of_parts; [|exact Hq1|exact Hq2].
+    unfold run_ok in *. rewrite F3, Hr in Hok. destruct Hok as (Hc & _). cbn [s_run set_run set_seq s_conn s_now].
+    destruct F1 as (Fn & _). rewrite Fn in *. repeat split; try assumption; lia.
+Qed.
+
+Lemma on_rx_J st src frag v items st' o : J cfg st -> on_rx cfg st src frag v items = (st', o) -> J cfg st'.
+Proof.
+  intros HJ. unfold on_rx. destruct (negb (s_conn st)); [intros H; injection H as <- _; exact HJ|].
+  destruct (parse_response frag) as [|h objs].
+  - destruct (s_run st); try (apply fail_running_J; exact HJ). intros H; injection H as <- _; exact HJ.
+  - destruct (s_run st) as [|k q dl sd|k q first dl sd|tk dl] eqn:Hr.
+    + destruct (h_unsol h); [apply handle_unsol_J; exact HJ|intros H; injection H as <- _; exact HJ].
+    + apply on_nonread_rx_J; assumption.
+    + apply on_read_rx_J; assumption.
+    + destruct (if h_unsol h then _ else _) as [st1 o1] eqn:E1. destruct (fail_running cfg st1 EBadHeaders) as [st2 o2] eqn:E2.
+      intros H. injection H as <- _. eapply fail_running_J; [|exact E2].
+      destruct (h_unsol h); [eapply handle_unsol_J; eauto|injection E1 as <- _; exact HJ].
+Qed.
+
+Lemma stop_run_J st why st' o : J cfg st -> stop_run cfg st why = (st', o) -> J cfg st' /\ s_conn st' = false.
+Proof.
+  intros HJ. unfold stop_run. destruct (fail_running _ _ _) as [st1 o1] eqn:E1.
+  pose proof (fail_running_J _ _ _ _ HJ E1) as (Hok1 & Hq1 & Hq2). pose proof (fail_running_idle _ _ _ _ _ E1) as [Hidle _].
+  destruct (s_assoc st1) eqn:Ha.
+  - unfold reset_assoc. intros H. injection H as <- _. split; [|reflexivity].
+    apply J_of_parts; [unfold run_ok; cbn [s_run set_chan set_last_unsol set_autos set_queue]; rewrite Hidle; exact I| |]; reflexivity.
+  - intros H. injection H as <- _. split; [|reflexivity]. specialize (Hq2 eq_refl).
+    apply J_of_parts; [unfold run_ok; cbn [s_run set_chan]; rewrite Hidle; exact I| |]; intros _; exact Hq2.
+Qed.
+
+Lemma J_not_conn_idle st : J cfg st -> s_conn st = false -> s_run st = RNone.
+Proof.
+  intros (Hok & _) Hc. unfold run_ok in Hok. destruct (s_run st); try reflexivity; destruct Hok as (Hc' & _); congruence.
+Qed.
+
+Lemma on_event_J st ev st' o : J cfg st -> on_event cfg st ev = (st', o) -> J cfg st'.
+Proof.
+  intros HJ. destruct ev as [src frag v items|ms|t u| | | | | |]; cbn [on_event]; intros H.
+  - destruct (on_rx _ _ _ _ _ _) as [st1 o1] eqn:E. injection H as <- _. eapply on_rx_J; eauto.
+  - injection H as <- _; exact HJ.
+  - unfold on_user in H. destruct (s_assoc st) eqn:Ha; cbn [negb] in H; [|injection H as <- _; exact HJ].
+    destruct (s_conn st) eqn:Hc; cbn [negb] in H; [|injection H as <- _; exact HJ].
+    destruct (_ <? _)%nat; injection H as <- _; [|exact HJ].
+    destruct HJ as (Hok & _ & _). apply J_of_parts; [exact Hok| |]; cbn [s_conn s_assoc set_queue]; congruence.
+  - destruct (s_conn st) eqn:Hc.
+    + assert (HJ0 : J cfg (set_chan st true false (s_linkup st) (s_stopped st))).
+      { eapply J_transfer; [| | |exact HJ]; [repeat split; cbn; congruence|reflexivity|reflexivity]. }
+      exact (proj1 (stop_run_J _ _ _ _ HJ0 H)).
+    + injection H as <- _. eapply J_transfer; [| | |exact HJ]; [repeat split; cbn; congruence|reflexivity|reflexivity].
+  - destruct (s_conn st) eqn:Hc.
+    + injection H as <- _. eapply J_transfer; [| | |exact HJ]; [repeat split; cbn; congruence|reflexivity|reflexivity].
+    + unfold try_connect in H. destruct (_ && _); injection H as <- _.
+      * pose proof (J_not_conn_idle _ HJ Hc) as Hr. destruct HJ as (_ & Hq1 & Hq2).
+        apply J_of_parts; [unfold run_ok; cbn [s_run set_chan]; rewrite Hr; exact I|discriminate|exact Hq2].
+      * eapply J_transfer; [| | |exact HJ]; [repeat split; cbn; congruence|reflexivity|reflexivity].
+  - destruct (s_conn st) eqn:Hc.
+    + exact (proj1 (stop_run_J _ _ _ _ HJ H)).
+    + injection H as <- _. eapply J_transfer; [| | |exact HJ]; [repeat split; cbn; congruence|reflexivity|reflexivity].
+  - unfold try_connect in H. destruct (_ && _) eqn:Hcond; injection H as <- _.
+    + cbn [s_conn set_chan] in Hcond. destruct (s_conn st) eqn:Hc; [discriminate|].
+      pose proof (J_not_conn_idle _ HJ Hc) as Hr. destruct HJ as (_ & Hq1 & Hq2).
+      apply J_of_parts; [unfold run_ok; cbn [s_run set_chan]; rewrite Hr; exact I|discriminate|exact Hq2].
+    + eapply J_transfer; [| | |exact HJ]; [repeat split; cbn; congruence|reflexivity|reflexivity].
+  - injection H as <- _. destruct HJ as (Hok & _ & _). apply J_of_parts; [exact Hok| |]; reflexivity.
+  - destruct (s_conn st) eqn:Hc.
+    + destruct (stop_run cfg st StShutdown) as [st1 o1] eqn:E. injection H as <- _.
+      destruct (stop_run_J _ _ _ _ HJ E) as [HJ1 Hc1]. eapply J_transfer; [| | |exact HJ1]; [repeat split; cbn; congruence|reflexivity|reflexivity].
+    + injection H as <- _. eapply J_transfer; [| | |exact HJ]; [repeat split; cbn; congruence|reflexivity|reflexivity].
+Qed.
+
+Lemma start_nonread_cf st k objs st' o : start_nonread cfg st k objs = (st', o) -> cf st st'.
+Proof.
+  unfold start_nonread. destruct (send_nonread _ _ _ _ _) as [st1 o1] eqn:E. intros H. injection H as <- _.
+  eapply send_nonread_cf; eauto.
+Qed.
+Lemma start_user_cf st t u st' o : start_user cfg st t u = (st', o) -> cf st st'.
+Proof.
+  unfold start_user. destruct u; intros H; try (eapply start_nonread_cf; eassumption).
+  - eapply start_read_cf; eauto.
+  - injection H as <- _. repeat split.
+Qed.
+Lemma pump_cf fuel : forall st st' o, pump fuel cfg st = (st', o) -> cf st st'.
+Proof.
+  induction fuel as [|f IH]; intros st st' o H; cbn [pump] in H; [injection H as <- _; apply cf_refl|].
+  destruct (negb (s_conn st)); [injection H as <- _; apply cf_refl|].
+  destruct (s_run st); try (injection H as <- _; apply cf_refl).
+  destruct (next_task cfg st) as [|t|t u|a|]; try (injection H as <- _; apply cf_refl).
+  - destruct (start_user _ _ _ _) as [st1 o1] eqn:E1. destruct (pump f cfg st1) as [st2 o2] eqn:E2.
+    injection H as <- _. eapply cf_trans; [|eapply IH; eauto]. apply start_user_cf in E1. exact E1.
+  - destruct (start_nonread _ _ _ _) as [st1 o1] eqn:E1. destruct (pump f cfg st1) as [st2 o2] eqn:E2.
+    injection H as <- _. eapply cf_trans; [eapply start_nonread_cf; eauto|eapply IH; eauto].
+  - destruct (start_read _ _ _ _) as [st1 o1] eqn:E1. destruct (pump f cfg st1) as [st2 o2] eqn:E2.
+    injection H as <- _. eapply cf_trans; [eapply start_read_cf; eauto|eapply IH; eauto].
+Qed.
+
+Lemma auto_next_notbefore a now task t : (forall x, task <> NxNotBefore x) -> auto_next a now task = Some (NxNotBefore t) -> now < t.
+Proof.
+  intros Ht. unfold auto_next. destruct a as [| |l nx]; try discriminate.
+  - intros H. injection H as H. exfalso. eapply Ht; eauto.
+  - destruct (nx <=? now) eqn:E; intros H; injection H as H; [exfalso; eapply Ht; eauto|].
+    subst nx. apply N.leb_gt in E. exact E.
+Qed.
+
+Lemma next_task_notbefore st t : next_task cfg st = NxNotBefore t -> s_now st < t.
+Proof.
+  unfold next_task. destruct (negb (s_assoc st)); [discriminate|].
+  destruct (s_queue st) as [|[t' u'] r]; [|discriminate].
+  destruct (auto_next (s_clear st) _ _) as [n|] eqn:E0.
+  { intros ->. eapply auto_next_notbefore; [|exact E0]. discriminate. }
+  destruct (if c_disable cfg =? 0 then None else _) as [n|] eqn:E1.
+  { intros ->. destruct (c_disable cfg =? 0); [discriminate|]. eapply auto_next_notbefore; [|exact E1]. discriminate. }
+  destruct (if c_integrity cfg =? 0 then None else _) as [n|] eqn:E2.
+  { intros ->. destruct (c_integrity cfg =? 0); [discriminate|]. eapply auto_next_notbefore; [|exact E2]. discriminate. }
+  destruct (if c_enable cfg =? 0 then None else _) as [n|] eqn:E3; [|discriminate].
+  intros ->. destruct (c_enable cfg =? 0); [discriminate|]. eapply auto_next_notbefore; [|exact E3]. discriminate.
+Qed.
+
+(* every armed deadline lies strictly in the future *)
+Lemma wake_guard st d : J cfg st -> wake_time cfg st = Some d -> s_now st < d.
+Proof.
+  intros (Hok & _) Hw. unfold wake_time in Hw. destruct (s_conn st); [|discriminate]. unfold run_ok in Hok.
+  destruct (s_run st) as [|k q dl sd|k q f dl sd|tk dl].
+  - destruct (next_task cfg st) eqn:Hn; try discriminate. injection Hw as <-. apply next_task_notbefore. exact Hn.
+  - injection Hw as <-. tauto.
+  - injection Hw as <-. tauto.
+  - injection Hw as <-. tauto.
+Qed.
+
+Lemma fire_J st d st' o :
+  J cfg st -> s_now st <= d -> fire cfg (set_now st d) = (st', o) -> J cfg st' /\ s_now st' = d.
+Proof.
+  intros (Hok & Hq1 & Hq2) Hd. unfold fire. cbn [s_run set_now].
+  destruct (s_run st) eqn:Hr.
+  - intros H. split; [|apply pump_cf in H; destruct H as (Hn & _); exact Hn].
+    eapply pump_J; [|exact H]. apply J_of_parts; [unfold run_ok; cbn [s_run set_now]; rewrite Hr; exact I|exact Hq1|exact Hq2].
+  - destruct (fail_running cfg (set_now st d) ETimeout) as [st1 o1] eqn:E. intros H.
+    assert (HJ1 : J cfg st1).
+    { destruct (fail_running_idle _ _ _ _ _ E) as [Hi _]. destruct (fail_running_frame _ _ _ _ _ E) as (_ & Fc & _ & _ & _ & Fa & Fq & _).
+      apply J_of_parts; [unfold run_ok; rewrite Hi; exact I|rewrite Fc, Fq; exact Hq1|rewrite Fa, Fq; exact Hq2]. }
+    split; [eapply then_pump_J; eauto|]. unfold then_pump, run_pump in H. destruct (pump _ cfg st1) as [st2 o2] eqn:E2.
+    injection H as <- _. apply pump_cf in E2. destruct E2 as (Hn & _). rewrite Hn.
+    destruct (fail_running_frame _ _ _ _ _ E) as (Fn & _). exact Fn.
+  - destruct (fail_running cfg (set_now st d) ETimeout) as [st1 o1] eqn:E. intros H.
+    assert (HJ1 : J cfg st1).
+    { destruct (fail_running_idle _ _ _ _ _ E) as [Hi _]. destruct (fail_running_frame _ _ _ _ _ E) as (_ & Fc & _ & _ & _ & Fa & Fq & _).
+      apply J_of_parts; [unfold run_ok; rewrite Hi; exact I|rewrite Fc, Fq; exact Hq1|rewrite Fa, Fq; exact Hq2]. }
+    split; [eapply then_pump_J; eauto|]. unfold then_pump, run_pump in H. destruct (pump _ cfg st1) as [st2 o2] eqn:E2.
+    injection H as <- _. apply pump_cf in E2. destruct E2 as (Hn & _). rewrite Hn.
+    destruct (fail_running_frame _ _ _ _ _ E) as (Fn & _). exact Fn.
+  - destruct (fail_running cfg (set_now st d) ETimeout) as [st1 o1] eqn:E. intros H.
+    assert (HJ1 : J cfg st1).
+    { destruct (fail_running_idle _ _ _ _ _ E) as [Hi _]. destruct (fail_running_frame _ _ _ _ _ E) as (_ & Fc & _ & _ & _ & Fa & Fq & _).
+      apply J_of_parts; [unfold run_ok; rewrite Hi; exact I|rewrite Fc, Fq; exact Hq1|rewrite Fa, Fq; exact Hq2]. }
+    split; [eapply then_pump_J; eauto|]. unfold then_pump, run_pump in H. destruct (pump _ cfg st1) as [st2 o2] eqn:E2.
+    injection H as <- _. apply pump_cf in E2. destruct E2 as (Hn & _). rewrite Hn.
+    destruct (fail_running_frame _ _ _ _ _ E) as (Fn & _). exact Fn.
+Qed.
+
+Lemma set_now_J st t : J cfg st -> s_now st <= t -> (forall d, wake_time cfg st = Some d -> t < d) -> J cfg (set_now st t).
+Proof.
+  intros (Hok & Hq1 & Hq2) Ht Hw. apply J_of_parts; [|exact Hq1|exact Hq2].
+  unfold run_ok in *. cbn [s_run set_now s_conn s_now]. unfold wake_time in Hw.
+  destruct (s_run st) as [|k q dl sd|k q f dl sd|tk dl]; [exact I| | |];
+    destruct Hok as (Hc & Hrest); rewrite Hc in Hw; specialize (Hw _ eq_refl); repeat split; try tauto; lia.
+Qed.
+
+(* with enough fuel the clock reaches the target and every deadline on the way has fired *)
+Lemma advance_J fuel : forall st target st' o,
+  J cfg st -> (N.to_nat (target - s_now st) < fuel)%nat -> advance fuel cfg st target = (st', o) ->
+  J cfg st' /\ s_now st' = N.max (s_now st) target.
+Proof.
+  induction fuel as [|f IH]; intros st target st' o HJ Hf H; [lia|]. cbn [advance] in H.
+  destruct (wake_time cfg st) as [d|] eqn:Hw.
+  - pose proof (wake_guard _ _ HJ Hw) as Hg.
+    destruct (d <=? target) eqn:Hle.
+    + apply N.leb_le in Hle. replace (N.max (s_now st) d) with d in H by lia.
+      destruct (fire cfg (set_now st d)) as [st1 o1] eqn:E1. destruct (advance f cfg st1 target) as [st2 o2] eqn:E2.
+      injection H as <- _. destruct (fire_J st d st1 o1 HJ (N.lt_le_incl _ _ Hg) E1) as [HJ1 Hn1].
+      assert (Hf1 : (N.to_nat (target - s_now st1) < f)%nat) by (rewrite Hn1; lia).
+      destruct (IH st1 target st2 o2 HJ1 Hf1 E2) as [HJ2 Hn2]. split; [exact HJ2|]. rewrite Hn2, Hn1. lia.
+    + apply N.leb_gt in Hle. injection H as <- _. split; [|reflexivity].
+      apply set_now_J; [exact HJ|lia|]. intros d' Hd'. rewrite Hw in Hd'. injection Hd' as <-. lia.
+  - injection H as <- _. split; [|reflexivity]. apply set_now_J; [exact HJ|lia|]. intros d' Hd'. rewrite Hw in Hd'. discriminate.
+Qed.
+
+Lemma mstep_J st ev : J cfg st -> J cfg (fst (mstep cfg st ev)).
+Proof.
+  intros HJ. unfold mstep. destruct (s_stopped st); [exact HJ|].
+  destruct (on_event cfg st ev) as [st0 o0] eqn:E0. destruct (then_pump cfg (st0, o0)) as [st1 o1] eqn:E1.
+  destruct (advance _ cfg st1 _) as [st2 o2] eqn:E2. cbn [fst].
+  eapply advance_J; [|
+    |exact E2]; [eapply then_pump_J; [|exact E1]; eapply on_event_J; eauto|].
+  replace (s_now st1 + span_of ev - s_now st1) with (span_of ev) by lia. lia.
+Qed.
+
+Lemma minit_J : J cfg (fst (minit cfg)).
+Proof.
+  unfold minit. destruct (run_pump cfg _) as [st1 o1] eqn:E1. destruct (advance 2 cfg st1 1) as [st2 o2] eqn:E2. cbn [fst].
+  assert (HJ1 : J cfg st1).
+  { eapply pump_J; [|exact E1]. apply J_of_parts; [exact I|discriminate|discriminate]. }
+  eapply advance_J; [exact HJ1| |exact E2]. apply pump_cf in E1. destruct E1 as (Hn & _). rewrite Hn. cbn. lia.
+Qed.
+
+End Timing.
+
+(* C16.5 bounded_steps.  In every state a run can reach (response timeout at least 1 ms): a task is
+   waited for only while connected, the deadline of the outstanding task lies strictly in the
+   future, and it is at most [nr_steps] response timeouts after the task was started - one for a
+   single request/response, two for select-before-operate - and, for a READ and a link status
+   check, at most one response timeout after the present (after the last accepted fragment).
+   Together with [timeout_is_error] (when the deadline passes the task fails at that instant)
+   no request is outstanding for longer than its protocol steps allow. *)
+Theorem bounded_steps : forall cfg evs k,
+  1 <= c_timeout cfg -> J cfg (state_at cfg evs k).
+Proof.
+  intros cfg evs k Ht. unfold state_at, final.
+  generalize (firstn k evs). intros l. pose proof (minit_J cfg Ht) as H0. revert H0.
+  generalize (fst (minit cfg)). induction l as [|ev l IH]; intros st HJ; cbn [final_from]; [exact HJ|].
+  apply IH. apply mstep_J; assumption.
+Qed.
+
+(* after shutdown (and whenever there is no connection) nothing is owed any more *)
+Lemma J_pending cfg st : J cfg st -> s_conn st = false -> pending st = [].
+Proof.
+  intros HJ Hc. unfold pending. rewrite (J_not_conn_idle cfg st HJ Hc). destruct HJ as (_ & Hq & _). rewrite (Hq Hc). reflexivity.
+Qed.
+
+Lemma then_pump_cf cfg st1 o1 st' o : then_pump cfg (st1, o1) = (st', o) -> cf st1 st'.
+Proof. unfold then_pump, run_pump. destruct (pump _ cfg st1) as [st2 o2] eqn:E. intros H. injection H as <- _. eapply pump_cf; eauto. Qed.
+
+Lemma fire_conn cfg st st' o : fire cfg st = (st', o) -> s_conn st' = s_conn st.
+Proof.
+  unfold fire. destruct (s_run st); try (intros H; apply pump_cf in H; apply H);
+    destruct (fail_running cfg st ETimeout) as [st1 o1] eqn:E; intros H; apply then_pump_cf in H; destruct H as (_ & H & _);
+    rewrite H; apply fail_running_frame in E; apply E.
+Qed.
+
+Lemma advance_conn fuel cfg : forall st target st' o, advance fuel cfg st target = (st', o) -> s_conn st' = s_conn st.
+Proof.
+  induction fuel as [|f IH]; intros st target st' o H; cbn [advance] in H; [injection H as <- _; reflexivity|].
+  destruct (wake_time cfg st) as [d|]; [|injection H as <- _; reflexivity].
+  destruct (d <=? target); [|injection H as <- _; reflexivity].
+  destruct (fire _ _) as [st1 o1] eqn:E1. destruct (advance f cfg st1 target) as [st2 o2] eqn:E2.
+  injection H as <- _. rewrite (IH _ _ _ _ E2). apply fire_conn in E1. exact E1.
+Qed.
+
+Lemma send_nonread_sp cfg st k objs sd st' o : send_nonread cfg st k objs sd = (st', o) -> s_stopped st' = s_stopped st.
+Proof.
+  unfold send_nonread. destruct (fits cfg objs); intros H; [injection H as <- _; reflexivity|].
+  destruct (nr_error _ _ _ _) as [st2 o2] eqn:E. injection H as <- _. apply nr_error_frame in E. apply E.
+Qed.
+Lemma start_user_sp cfg st t u st' o : start_user cfg st t u = (st', o) -> s_stopped st' = s_stopped st.
+Proof.
+  unfold start_user, start_nonread, start_read. destruct u; intros H;
+    try (destruct (send_nonread _ _ _ _ _) as [st1 o1] eqn:E; injection H as <- _; eapply send_nonread_sp; eassumption).
+  - destruct (fits cfg objs); [injection H as <- _; reflexivity|].
+    destruct (rd_error _ _ _ _) as [st2 o2] eqn:E. injection H as <- _. apply rd_error_frame in E. apply E.
+  - injection H as <- _; reflexivity.
+Qed.
+Lemma pump_sp fuel cfg : forall st st' o, pump fuel cfg st = (st', o) -> s_stopped st' = s_stopped st.
+Proof.
+  induction fuel as [|f IH]; intros st st' o H; cbn [pump] in H; [injection H as <- _; reflexivity|].
+  destruct (negb (s_conn st)); [injection H as <- _; reflexivity|].
+  destruct (s_run st); try (injection H as <- _; reflexivity).
+  destruct (next_task cfg st) as [|t|t u|a|]; try (injection H as <- _; reflexivity).
+  - destruct (start_user _ _ _ _) as [st1 o1] eqn:E1. destruct (pump f cfg st1) as [st2 o2] eqn:E2.
+    injection H as <- _. rewrite (IH _ _ _ E2). apply start_user_sp in E1. exact E1.
+  - unfold start_nonread in H. destruct (send_nonread _ _ _ _ _) as [st1 o1] eqn:E1. destruct (pump f cfg st1) as [st2 o2] eqn:E2.
+    injection H as <- _. rewrite (IH _ _ _ E2). eapply send_nonread_sp; eauto.
+  - unfold start_read in H. destruct (fits cfg _).
+    + destruct (pump f cfg _) as [st2 o2] eqn:E2. injection H as <- _. rewrite (IH _ _ _ E2). reflexivity.
+    + destruct (rd_error _ _ _ _) as [st1 o1] eqn:E1. destruct (pump f cfg _) as [st2 o2] eqn:E2. injection H as <- _.
+      rewrite (IH _ _ _ E2). apply rd_error_frame in E1. apply E1.
+Qed.
+Lemma fire_sp cfg st st' o : fire cfg st = (st', o) -> s_stopped st' = s_stopped st.
+Proof.
+  unfold fire, then_pump, run_pump. destruct (s_run st); try apply pump_sp;
+    destruct (fail_running cfg st ETimeout) as [st1 o1] eqn:E; destruct (pump _ cfg st1) as [st2 o2] eqn:E2; intros H;
+    injection H as <- _; rewrite (pump_sp _ _ _ _ _ E2); apply fail_running_frame in E; apply E.
+Qed.
+Lemma advance_sp fuel cfg : forall st target st' o, advance fuel cfg st target = (st', o) -> s_stopped st' = s_stopped st.
+Proof.
+  induction fuel as [|f IH]; intros st target st' o H; cbn [advance] in H; [injection H as <- _; reflexivity|].
+  destruct (wake_time cfg st) as [d|]; [|injection H as <- _; reflexivity].
+  destruct (d <=? target); [|injection H as <- _; reflexivity].
+  destruct (fire _ _) as [st1 o1] eqn:E1. destruct (advance f cfg st1 target) as [st2 o2] eqn:E2.
+  injection H as <- _. rewrite (IH _ _ _ _ E2). apply fire_sp in E1. exact E1.
+Qed.
+
+(* a master that has been shut down is not connected *)
+Definition stopped_ok (st : mstate) : Prop := s_stopped st = true -> s_conn st = false.
+
+Lemma on_event_stopped cfg st ev st' o :
+  s_stopped st = false -> on_event cfg st ev = (st', o) -> s_stopped st' = true -> s_conn st' = false.
+Proof.
+  intros Hs. destruct ev as [src frag v items|ms|t u| | | | | |]; cbn [on_event]; intros H Hs'.
+  9:{ destruct (if s_conn st then _ else _) as [st1 o1]. injection H as <- _. reflexivity. }
+  all: exfalso.
+  - destruct (on_rx _ _ _ _ _ _) as [st1 o1] eqn:E. injection H as <- _.
+    assert (s_stopped st1 = s_stopped st); [|congruence]. clear Hs Hs'.
+    unfold on_rx in E. destruct (negb (s_conn st)); [injection E as <- _; reflexivity|].
+    assert (Hu : forall sa oa, handle_unsol cfg st src match parse_response frag with PResponse h _ => h | _ => mk_rhdr 0 false 0 0 end
+                  match parse_response frag with PResponse _ ob => ob | _ => [] end v items = (sa, oa) -> s_stopped sa = s_stopped st).
+    { intros sa oa. unfold handle_unsol. destruct (_ && s_assoc st); [|intros H; injection H as <- _; reflexivity].
+      assert (Hp : forall i, s_stopped (process_iin st i) = s_stopped st).
+      { intros i. unfold process_iin. destruct (iin1_restart i); [destruct (s_clear st)|]; reflexivity. }
+      destruct (_ || _); [|intros H; injection H as <- _; apply Hp].
+      destruct v; try (intros H; injection H as <- _; apply Hp).
+      destruct (match s_last_unsol _ with Some _ => _ | None => _ end); intros H; injection H as <- _; apply Hp. }
+    assert (Hp : forall i, s_stopped (process_iin st i) = s_stopped st).
+    { intros i. unfold process_iin. destruct (iin1_restart i); [destruct (s_clear st)|]; reflexivity. }
+    destruct (parse_response frag) as [|h objs].
+    + destruct (s_run st); try (apply fail_running_frame in E; apply E). injection E as <- _; reflexivity.
+    + destruct (s_run st) as [|k q dl sd|k q f dl sd|tk dl].
+      * destruct (h_unsol h); [eapply Hu; eauto|injection E as <- _; reflexivity].
+      * unfold on_nonread_rx in E. destruct (h_unsol h); [eapply Hu; eauto|].
+        destruct (negb (src =? c_addr cfg)); [injection E as <- _; reflexivity|].
+        destruct (negb (_ =? q)); [injection E as <- _; reflexivity|].
+        destruct (negb (_ && _)); [apply fail_running_frame in E; apply E|].
+        destruct (iin2_bad _); [apply fail_running_frame in E; apply E|].
+        destruct (s_assoc st).
+        -- destruct (handle_nonread_response _ _ _ _ _ _ _ _) as [sa oa] eqn:Ea. injection E as <- _.
+           rewrite <- (Hp (h_iin1 h)). unfold handle_nonread_response, nr_success, nr_failed in Ea.
+           destruct k as [t ph hs|t|t fc|t cold|a].
+           ++ destruct v; try (injection Ea as <- _; reflexivity). destruct (compare hs objs); [|injection Ea as <- _; reflexivity].
+              destruct ph; try (injection Ea as <- _; reflexivity). eapply send_nonread_sp; eauto.
+           ++ destruct objs; injection Ea as <- _; reflexivity.
+           ++ destruct objs; injection Ea as <- _; reflexivity.
+           ++ destruct v; try (injection Ea as <- _; reflexivity). destruct (restart_delay objs); injection Ea as <- _; reflexivity.
+           ++ injection Ea as <- _. cbn [s_stopped set_run]. apply auto_response_frame.
+        -- destruct (nr_error _ _ _ _) as [sa oa] eqn:Ea. injection E as <- _. apply nr_error_frame in Ea. apply Ea.
+      * unfold on_read_rx in E. destruct (h_unsol h); [eapply Hu; eauto|].
+        destruct (negb (src =? c_addr cfg)); [injection E as <- _; reflexivity|].
+        destruct (negb (_ =? q)); [injection E as <- _; reflexivity|].
+        destruct (_ && negb f); [apply fail_running_frame in E; apply E|].
+        destruct (negb _ && f); [apply fail_running_frame in E; apply E|].
+        destruct (negb _ && negb _); [apply fail_running_frame in E; apply E|].
+        destruct (iin2_bad _); [apply fail_running_frame in E; apply E|].
+        destruct (negb (s_assoc st)); [apply fail_running_frame in E; apply E|].
+        destruct v; try (apply fail_running_frame in E; destruct E as (_ & _ & _ & _ & E & _); rewrite E; apply Hp).
+        destruct (c_fin _); [destruct k; injection E as <- _; apply Hp|injection E as <- _; apply Hp].
+      * destruct (if h_unsol h then _ else _) as [sa oa] eqn:Ea. destruct (fail_running cfg sa EBadHeaders) as [sb ob] eqn:Eb.
+        injection E as <- _. apply fail_running_frame in Eb. destruct Eb as (_ & _ & _ & _ & Eb & _). rewrite Eb.
+        destruct (h_unsol h); [eapply Hu; eauto|injection Ea as <- _; reflexivity].
+  - injection H as <- _. congruence.
+  - unfold on_user in H. destruct (negb (s_assoc st)); [injection H as <- _; congruence|].
+    destruct (negb (s_conn st)); [injection H as <- _; congruence|].
+    destruct (_ <? _)%nat; injection H as <- _; cbn [s_stopped set_queue] in Hs'; congruence.
+  - assert (Hst : forall sa sb ob, s_stopped sa = false -> stop_run cfg sa StDisable = (sb, ob) -> s_stopped sb = false).
+    { intros sa sb ob Ha Hb. unfold stop_run in Hb. destruct (fail_running _ _ _) as [s1 o1] eqn:E1.
+      apply fail_running_frame in E1. destruct E1 as (_ & _ & _ & _ & E1 & _).
+      destruct (s_assoc s1); [unfold reset_assoc in Hb|]; injection Hb as <- _; cbn; congruence. }
+    destruct (s_conn st); [|injection H as <- _; cbn in Hs'; congruence].
+    apply Hst in H; [congruence|exact Hs].
+  - destruct (s_conn st); [injection H as <- _; cbn in Hs'; congruence|].
+    unfold try_connect in H. destruct (_ && _); injection H as <- _; cbn in Hs'; congruence.
+  - destruct (s_conn st); [|injection H as <- _; cbn in Hs'; congruence].
+    unfold stop_run in H. destruct (fail_running _ _ _) as [s1 o1] eqn:E1.
+    apply fail_running_frame in E1. destruct E1 as (_ & _ & _ & _ & E1 & _).
+    destruct (s_assoc s1); [unfold reset_assoc in H|]; injection H as <- _; cbn in Hs'; congruence.
+  - unfold try_connect in H. destruct (_ && _); injection H as <- _; cbn in Hs'; congruence.
+  - injection H as <- _. cbn in Hs'. congruence.
+Qed.
+
+Lemma mstep_stopped_ok cfg st ev : stopped_ok st -> stopped_ok (fst (mstep cfg st ev)).
+Proof.
+  unfold stopped_ok. intros H0. unfold mstep. destruct (s_stopped st) eqn:Hs; [cbn [fst]; intros _; apply H0; reflexivity|].
+  destruct (on_event cfg st ev) as [sa oa] eqn:Ea. destruct (then_pump cfg (sa, oa)) as [sb ob] eqn:Eb.
+  destruct (advance _ cfg sb _) as [sc oc] eqn:Ec. cbn [fst]. intros Hsc.
+  rewrite (advance_conn _ _ _ _ _ _ Ec). pose proof (then_pump_cf _ _ _ _ _ Eb) as (_ & Hcb & _). rewrite Hcb.
+  eapply on_event_stopped; [exact Hs|exact Ea|].
+  rewrite (advance_sp _ _ _ _ _ _ Ec) in Hsc. unfold then_pump, run_pump in Eb. destruct (pump _ cfg sa) as [sd od] eqn:Ed.
+  injection Eb as <- _. rewrite (pump_sp _ _ _ _ _ Ed) in Hsc. exact Hsc.
+Qed.
+
+Lemma final_stopped_ok cfg evs : stopped_ok (final cfg evs).
+Proof.
+  unfold final.
+  assert (H0 : stopped_ok (fst (minit cfg))).
+  { unfold minit. destruct (run_pump cfg _) as [st1 o1] eqn:E1. destruct (advance 2 cfg st1 1) as [st2 o2] eqn:E2. cbn [fst].
+    unfold stopped_ok. rewrite (advance_sp _ _ _ _ _ _ E2). unfold run_pump in E1. rewrite (pump_sp _ _ _ _ _ E1). discriminate. }
+  revert H0. generalize (fst (minit cfg)). induction evs as [|ev l IH]; intros st H; cbn [final_from]; [exact H|].
+  apply IH. apply mstep_stopped_ok. exact H.
+Qed.
+
+(* ... in particular after a shutdown: every request ever submitted has got its outcome *)
+Theorem shutdown_completes_everything : forall cfg evs,
+  1 <= c_timeout cfg -> pending (final cfg (evs ++ [EShutdown])) = [].
+Proof.
+  intros cfg evs Ht.
+  pose proof (bounded_steps cfg (evs ++ [EShutdown]) (length (evs ++ [EShutdown])) Ht) as HJ.
+  unfold state_at in HJ. rewrite firstn_all in HJ.
+  apply (J_pending cfg); [exact HJ|].
+  unfold final. rewrite final_from_app. cbn [final_from]. fold (final cfg evs).
+  pose proof (final_stopped_ok cfg evs) as Hso. set (st := final cfg evs) in *.
+  unfold mstep. destruct (s_stopped st) eqn:Hs; [cbn [fst]; apply Hso; exact Hs|].
+  destruct (on_event cfg st EShutdown) as [sa oa] eqn:Ea. destruct (then_pump cfg (sa, oa)) as [sb ob] eqn:Eb.
+  destruct (advance _ cfg sb _) as [sc oc] eqn:Ec. cbn [fst].
+  rewrite (advance_conn _ _ _ _ _ _ Ec). pose proof (then_pump_cf _ _ _ _ _ Eb) as (_ & Hcb & _). rewrite Hcb.
+  cbn [on_event] in Ea. destruct (if s_conn st then _ else _) as [s1 o1]. injection Ea as <- _. reflexivity.
+Qed.
